@@ -333,6 +333,15 @@ def run_check(mod, tier, seed, replay=None, jobs=None):
     elif n_ok == 0:
         verdict = 'inconclusive'
         reason = 'no case completed'
+    elif statuses.get('rejected', 0) > getattr(mod, 'MAX_REJECTED_FRACTION',
+                                               0.5) * len(results):
+        # the generators produce inputs DASSH accepts (2-25 % are refused,
+        # mostly for too many steps or correlation ranges); when most of
+        # them are refused the monitors have seen too little to say "held"
+        verdict = 'inconclusive'
+        reason = ('%d of %d generated cases were refused by DASSH (error '
+                  'exit): the workload did not reach the monitors'
+                  % (statuses.get('rejected', 0), len(results)))
     if verdict == 'held' and len(nontrivial) < 2 and not replay:
         verdict = 'inconclusive'
         reason = 'fewer than 2 distinct non-trivial cases observed'
